@@ -9,7 +9,8 @@ package main
 // through several readers.  Typed
 // round trips (typed.go: struct families filled by reflection, several typed
 // write and read paths) cover the Go-value mapping, the logical types reached
-// through struct tags and the bulk (one call, many values) column paths.  The model side: Dremel shred == the rows handed to
+// through struct tags, the bulk (one call, many values) column paths, Go maps
+// of every key kind and Go values narrower than the columns of a given schema.  The model side: Dremel shred == the rows handed to
 // the writer, and assembling the read-back column streams returns the values.
 
 import (
@@ -298,7 +299,7 @@ type tInner struct {
 }
 
 func run(c *core.Ctx) {
-	c.Res.Rule = "random schemas (required/optional/repeated leaves of every physical type and several logical types, groups, LIST groups, depth <= 3) x value trees with boundary values (min/max ints, NaN payloads, -0, infinities, empty and long byte strings, null runs, empty and long lists) shredded by an independent Dremel implementation x writer options (page version, page buffer size, max rows per row group, codec per file and per column, encodings per column, dictionary limit, statistics, write buffer, bloom filters, index size limit) x Write/Flush histories x row sink (GenericWriter.WriteRows, Writer.WriteRows, GenericBuffer.WriteRows or RowBuffer.WriteRows + WriteRowGroup at every Flush, SortingWriter.WriteRows with or without a sorting column and sort buffers of 1..1000 rows) x caller (keeps fresh rows; builds every batch in one Value slab and one byte arena which it overwrites after each WriteRows; refills the same slab and arena with the next batch); each file is read back through RowGroup.Rows, parquet.Reader and ColumnChunk.Pages and must equal the written rows value-for-value and level-for-level (in the order written; as a multiset for the sorting writer, whose order is C10); plus typed round trips generated by reflection over compiled struct families (every kind of dictionary-encoded column as required, optional and repeated field with lists of up to 5000 (thorough: 20000) elements handed over in one call; logical types through struct tags: int(n)/uint(n), decimal on int32/int64/fixed arrays, date, time, timestamp of every unit on integers, time.Time and time.Duration, uuid, enum, json, string/bytes, at the extremes of their ranges; every Go kind (bool, int, uint and every fixed width, floats, string, []byte, byte arrays of 1/5/16/20 bytes, Int96, time.Time, time.Duration, a group, lists) as an `optional` non-pointer field whose null is the zero value, zero with the null bias; row types and nested/optional/repeated groups that promote the fields of embedded structs placed first, in the middle behind fields of odd sizes, last and two levels deep, of exported and unexported types, read back into the embedding type or into the same schema declared without embedding) x values from pools and extremes (min/max, 0, +-1, half-width boundaries, zero except for one byte, NaN payloads, -0, empty/long byte strings) x value pools of 2..2^30 distinct values per column x write path (one GenericWriter.Write call, small calls, GenericBuffer+WriteRowGroup, Write(any), RowBuffer+WriteRowGroup, SortingWriter with or without a sorting column) x caller (hands over its rows and keeps them; fills one reused batch slice whose arrays, byte-slice contents, numbers, pointer targets and list elements it overwrites in place after each Write; refills the same batch with the next rows) x read path (parquet.Read, GenericReader batches, Reader.Read(any)) x reading caller (keeps every batch by value and hands Read zeroed destinations; the destinations still holding the rows of the previous call; destinations it filled with unrelated rows - non-nil pointers, slices with capacity, byte slices in an arena it overwrites before the next call) x read type (the written struct type, or one with the same tags and wider Go integer types) x page version, page size, codec, dictionary limit, rows per row group x build variant (assembly kernels, purego); compared leaf by leaf (floats by bits, time.Time as instants, nil = empty slice). Non-trivial = at least 2 rows accepted by the writer; distinct by the JSON of the case."
+	c.Res.Rule = "random schemas (required/optional/repeated leaves of every physical type and several logical types, groups, LIST groups, depth <= 3) x value trees with boundary values (min/max ints, NaN payloads, -0, infinities, empty and long byte strings, null runs, empty and long lists) shredded by an independent Dremel implementation x writer options (page version, page buffer size, max rows per row group, codec per file and per column, encodings per column, dictionary limit, statistics, write buffer, bloom filters, index size limit) x Write/Flush histories x row sink (GenericWriter.WriteRows, Writer.WriteRows, GenericBuffer.WriteRows or RowBuffer.WriteRows + WriteRowGroup at every Flush, SortingWriter.WriteRows with or without a sorting column and sort buffers of 1..1000 rows; one GenericWriter handed each batch of the history in another way - WriteRows, ColumnWriters()[i].WriteRowValues column by column, a row group begun with BeginRowGroup, filled by rows or by columns and committed at once - whose rows must be read in the order in which the calls returned) x caller (keeps fresh rows; builds every batch in one Value slab and one byte arena which it overwrites after each WriteRows; refills the same slab and arena with the next batch); each file is read back through RowGroup.Rows, parquet.Reader and ColumnChunk.Pages and must equal the written rows value-for-value and level-for-level (in the order written; as a multiset for the sorting writer, whose order is C10); plus typed round trips generated by reflection over compiled struct families (every kind of dictionary-encoded column as required, optional and repeated field with lists of up to 5000 (thorough: 20000) elements handed over in one call; logical types through struct tags: int(n)/uint(n), decimal on int32/int64/fixed arrays, date, time, timestamp of every unit on integers, time.Time and time.Duration, uuid, enum, json, string/bytes, at the extremes of their ranges; every Go kind (bool, int, uint and every fixed width, floats, string, []byte, byte arrays of 1/5/16/20 bytes, Int96, time.Time, time.Duration, a group, lists) as an `optional` non-pointer field whose null is the zero value, zero with the null bias; row types and nested/optional/repeated groups that promote the fields of embedded structs placed first, in the middle behind fields of odd sizes, last and two levels deep, of exported and unexported types, read back into the embedding type or into the same schema declared without embedding; Go maps of every key kind - ints, uints, floats and strings, which the typed writer copies with a generic scratch array, bool and byte arrays of 1/4/5/8/16/20 bytes, which it copies by reflection - over values smaller than, as large as and larger than the key, of 0..400 entries, with numbers, byte arrays and groups of numbers as values in one family and strings, byte slices, pointers, lists, groups and maps as values in another, in the row, in optional and repeated groups; rows of a struct type with NARROWER Go types than the schema the writers are given - int8/int16/int32 into INT64, uint8/uint16/uint32 into unsigned INT64, int8/int16 and uint8/uint16 into INT32, float32 into DOUBLE columns that are plain, dictionary and delta encoded, required, optional, repeated and inside groups - which every writer maps to its columns by reflection on the kind of each value, read back as the Go type of the schema) x values from pools and extremes (min/max, 0, +-1, half-width boundaries, zero except for one byte, NaN payloads, -0, empty/long byte strings) x value pools of 2..2^30 distinct values per column x write path (one GenericWriter.Write call, small calls, GenericBuffer+WriteRowGroup, Write(any), RowBuffer+WriteRowGroup, SortingWriter with or without a sorting column) x caller (hands over its rows and keeps them; fills one reused batch slice whose arrays, byte-slice contents, numbers, pointer targets and list elements it overwrites in place after each Write; refills the same batch with the next rows) x read path (parquet.Read, GenericReader batches, Reader.Read(any)) x reading caller (keeps every batch by value and hands Read zeroed destinations; the destinations still holding the rows of the previous call; destinations it filled with unrelated rows - non-nil pointers, slices with capacity, byte slices in an arena it overwrites before the next call) x read type (the written struct type, or one with the same tags and wider Go integer types) x page version, page size, codec, dictionary limit, rows per row group x build variant (assembly kernels, purego); compared leaf by leaf (floats by bits, time.Time as instants, nil = empty slice). Non-trivial = at least 2 rows accepted by the writer; distinct by the JSON of the case."
 	n := c.N(350, 6000)
 	for i := 0; i < n; i++ {
 		cs := rowCase{Case: gen.Case{Seed: c.Seed*1000003 + int64(i), NRows: []int{0, 1, 5, 40, 130, 300, 700}[c.Rng.Intn(7)], MaxDepth: 1 + c.Rng.Intn(3), MaxFields: 1 + c.Rng.Intn(5), Codecs: allCodecs, NullBias: c.Rng.Intn(8)}}
